@@ -256,7 +256,7 @@ def cond_variants(prog, fn, bb):
 
 
 # ---- decision tables ----------------------------------------------------------------------------
-def table(prog, fn, local=0):
+def table(prog, fn, local=0, _depth=0):
     """TABLE(F): [(bb, value expr, [conditions])] for every whole assignment of `local` (default:
     the return place). Conditions are the exact conjunctive part of the path condition (switches
     on the dominator chain); a disjunctive remainder shows up as a weaker (shorter) conjunction."""
@@ -264,7 +264,17 @@ def table(prog, fn, local=0):
     for bb, e in local_assignments(prog, fn, local):
         if fn.blocks[bb].get('cleanup'):
             continue
-        out.append((bb, e, cond_exprs(prog, fn, bb)))
+        conds = cond_exprs(prog, fn, bb)
+        # the value is the merged result of an inlined helper (sa/inline.py): one row per return path
+        # of the helper, under that path's own conditions
+        if isinstance(e, tuple) and e[0] == 'var' and len(e) > 2 and isinstance(e[2], int) and e[2] != local \
+                and fn.locals[e[2]].get('inlined_from') and _depth < 3:
+            sub = table(prog, fn, e[2], _depth + 1)
+            if sub:
+                for sbb, se, sc in sub:
+                    out.append((sbb, se, sc + [c for c in conds if c not in sc]))
+                continue
+        out.append((bb, e, conds))
     return out
 
 
